@@ -36,6 +36,7 @@ type Profile struct {
 	FaultFree   float64         // probability that a run has no faults at all
 	ModSvcCalls float64         // probability that the run calls the module-reserved service (known finding M1)
 	HugeFreq    float64         // probability that a run uses frequencies >= 2^62 (known finding D10)
+	MultiToken  float64         // probability that a run plugs in the multi-token keeper and exchange-rate feed (DESIGN §10.8)
 	PrefixAddrs float64         // probability that a run uses prefix-related non-signing provider addresses
 	Boundary    float64         // probability of boundary-shaped messages per stranger action
 	Blocks      [2]int          // run length range (quick)
@@ -87,6 +88,10 @@ type Gen struct {
 	thorough bool
 	didExpCont bool
 	orderN int
+	// multi-token runs draw their extra choices from a generator of their own, so that adding the dimension left every
+	// other run of every (seed, property, index) exactly as it was
+	multi bool
+	mrng  *rand.Rand
 }
 
 func (g *Gen) label(prefix string) string {
@@ -282,7 +287,40 @@ func (g *Gen) Run() []Op {
 	return g.ops
 }
 
+var ratePool = []string{"1.0", "1", "0.5", "2", "2.5", "0.001", "1000", "0.333333333333333333", "0", "0.000000000000000001", "7", "1.999999999999999999"}
+
+// genRate: the exchange-rate feed moves between blocks (multi-token runs) — a new value, or a feed fault
+func (g *Gen) genRate() Op {
+	pair := []string{"ugold-stake", "silver-stake"}[g.mrng.Intn(2)]
+	var rate string
+	switch r := g.mrng.Float64(); {
+	case r < 0.70:
+		rate = ratePool[g.mrng.Intn(len(ratePool))]
+	case r < 0.88:
+		rate = "" // the feed has no value for the pair
+		g.x.stats.inc("fault_rate_missing")
+	case r < 0.94:
+		rate = "!body"
+		g.x.stats.inc("fault_rate_malformed")
+	default:
+		rate = "!nan"
+		g.x.stats.inc("fault_rate_malformed")
+	}
+	g.x.stats.inc("fault_rate_change")
+	return Op{K: "rate", Pair: pair, Rate: rate}
+}
+
 func (g *Gen) oneBlock(active bool) bool {
+	if g.multi && g.mrng.Float64() < 0.12 {
+		// feed faults belong to the active phase; during the drain the feed only recovers
+		op := g.genRate()
+		if !active && (op.Rate == "" || op.Rate[0] == '!') {
+			op.Rate = "1.0"
+		}
+		if !g.emit(op) {
+			return false
+		}
+	}
 	t := g.nextBlockTime()
 	if !g.emit(Op{K: "begin", T: t}) {
 		return false
